@@ -31,8 +31,6 @@ TRACE_CFG = 'SPECIFICATION Spec\nINVARIANT VerdictOk\nCHECK_DEADLOCK FALSE\n'
 
 
 def observe_case(spec):
-    import resource
-    resource.setrlimit(resource.RLIMIT_AS, (6 << 30, 6 << 30))
     from lark import Lark
     from lark.exceptions import GrammarError, UnexpectedInput, UnexpectedToken
     from lark.parsers.lalr_analysis import Shift
@@ -131,6 +129,85 @@ def observe_case(spec):
     return case
 
 
+def record_digraph(gtext):
+    """LALR construction of one grammar with lalr_analysis.digraph wrapped: arguments (snapshotted before the
+    call - the function mutates the sets of G in place) and result, nodes and values numbered."""
+    import logging
+    logging.disable(logging.CRITICAL)
+    from lark import Lark
+    from lark.parsers import lalr_analysis as LA
+    orig = LA.digraph
+    calls = []
+
+    def wrapped(X, R, G):
+        X = list(X)
+        idx = {x: i + 1 for i, x in enumerate(X)}
+        vals = {}
+
+        def vid(v):
+            return vals.setdefault(v, len(vals) + 1)
+        Rj = [[idx[y] for y in R[x] if y in idx] for x in X]
+        Gj = [sorted(vid(v) for v in G[x]) for x in X]
+        F = orig(X, R, G)
+        Fj = [sorted(vid(v) for v in F[x]) for x in X]
+        calls.append({'n': len(X), 'R': Rj, 'G': Gj, 'F': Fj})
+        return F
+    LA.digraph = wrapped
+    try:
+        try:
+            Lark(gtext, parser='lalr')
+        except Exception:
+            pass
+    finally:
+        LA.digraph = orig
+    for c in calls:
+        c['gtext'] = gtext
+    return calls
+
+
+def digraph_conformance(ev, rep, tier, rng, tmp, extra_grammars):
+    res = C.tlc('MC_Digraph', 'SPECIFICATION Spec\nCONSTANT NN = 3\nINVARIANT L1EqualsL0\nCHECK_DEADLOCK FALSE\n', timeout=1200)
+    C.tlc_must_run(res, 'MC_Digraph')
+    ev.add_tlc('MC_Digraph NN=3 (all graphs, all iteration orders)', res, 'design')
+    if not res.ok:
+        raise C.MachineryFailure('MC_Digraph: L1 # L0 - the specification itself is wrong')
+    gtexts = list(extra_grammars)
+    for _ in range(C.scale(1500 if tier == 'quick' else 12000)):
+        G = F.rename_nts(F.tailrec_grammar(rng), rng)
+        gtexts.append(F.grammar_text(G, term_defs=F.grammar_terms(G)))
+    import glob
+    for path in sorted(glob.glob(os.path.join(C.REPO, 'lark', 'grammars', '*.lark'))):
+        if os.path.basename(path) in ('lark.lark', 'python.lark'):
+            try:
+                gtexts.append(open(path).read() if 'lark.lark' in path else None)
+            except Exception:
+                pass
+    gtexts = [g for g in gtexts if g]
+    calls = [c for cs in C.pmap(record_digraph, gtexts) for c in cs if c['n'] > 0]
+    if len(calls) < 100:
+        raise C.MachineryFailure('digraph conformance: only %d calls recorded (cannot attach?)' % len(calls))
+    CH = 4000
+    paths = [C.write_batch({'cases': [{k: c[k] for k in ('n', 'R', 'G', 'F')} for c in calls[o:o + CH]]}, tmp, 'dg_%d.json' % o)
+             for o in range(0, len(calls), CH)]
+    results = C.tlc_parallel('TraceDigraph', 'SPECIFICATION Spec\nINVARIANT VerdictOk\nCHECK_DEADLOCK FALSE\n', paths, continue_=True, timeout=3000)
+    drift = []
+    for pi, r in enumerate(results):
+        C.tlc_must_run(r, 'TraceDigraph')
+        ev.add_tlc('TraceDigraph', r, 'trace')
+        for v in sorted(set(tuple(x) for x in r.verdicts)):
+            drift.append(calls[pi * CH + int(v[0]) - 1])
+        os.remove(paths[pi])
+    ev.cov['counts']['digraph_calls'] = len(calls)
+    ev.cov['counts']['digraph_sccs_nontrivial'] = sum(1 for c in calls if any(x + 1 in r for x, r in enumerate(c['R'])) or
+                                                       any(len(r) > 1 for r in c['R']))
+    ev.cov['drift'] = len(drift)
+    ev.cov['traces_validated_against_impl'] += len(calls)
+    if drift:
+        print('DRIFT property=C02 lalr_analysis.digraph returned a result that is not the least solution for %d call(s); '
+              'judging the tables of those grammars' % len(drift))
+    return sorted({c['gtext'] for c in drift})
+
+
 def specs(tier, rng):
     out = []
     fam2 = list(F.bnf_family(2))
@@ -140,6 +217,11 @@ def specs(tier, rng):
         for G in Gs:
             ins = F.enriched_inputs(G, 3, extra_len=1, rng=rng)
             out.append({'family': fam, 'gtext': F.grammar_text(G), 'inputs': ins})
+    for G in F.rand_family(C.scale(1200 if tier == 'quick' else 8000), rng):
+        G2 = F.rename_nts(G, rng)
+        out.append({'family': 'F_rand', 'gtext': F.grammar_text(G2, term_defs=F.TERM3),
+                    'inputs': F.enriched_inputs(G, 2, extra_len=3, rng=rng, alphabet=('X', 'Y', 'Z'))})
+    out.append({'family': 'corpus-hang', 'gtext': 'start.0: a a\na.1:  | start Y\nX: "x"\nY: "y"\n', 'inputs': list(F.all_inputs(2))})
     # priorities on rule names: reduce/reduce conflicts between different rules resolved (or not) by priority
     n = 600 if tier == 'quick' else 4000
     for G in F.sample(fam3 + fam2, n, rng):
@@ -150,6 +232,12 @@ def specs(tier, rng):
         g = g.replace('start:', 'start.%d:' % ps if ps >= 0 else 'start.-1:').replace('\na:', '\na.%d:' % pa if pa >= 0 else '\na.-1:')
         out.append({'family': 'F_prio', 'gtext': g, 'inputs': F.enriched_inputs(G, 3, extra_len=1, rng=rng)})
     return out
+
+
+def known_matcher(fnd, case):
+    if fnd.get('match', {}).get('kind') == 'lalr-loop-on-priority-resolved-conflict':
+        return case.get('clause', '').endswith('@automaton-loops')
+    return False
 
 
 def batch_of(cases):
@@ -181,7 +269,7 @@ def judge(cases, ev, rep, tmp, name):
 
 def body(tier, seed, replay):
     ev = C.Evidence(PID, tier, seed)
-    rep = C.Reporter(PID, ev)
+    rep = C.Reporter(PID, ev, known_matcher)
     rng = random.Random(seed)
     tmp = C.scratch_dir('c02_')
     try:
@@ -217,6 +305,20 @@ def body(tier, seed, replay):
             ev.sample({'grammar': c['gtext'], 'gerr': c['gerr'], 'states': len(c['states']),
                        'input': c['inputs'][-1] if c['inputs'] else None})
         judge([c for c in cases if not c['other']], ev, rep, tmp, 'sweep')
+        # relation level (L1): digraph() against its least-fixpoint definition; grammars that drift get the full judgement
+        tail = []
+        for _ in range(C.scale(150 if tier == 'quick' else 1500)):
+            G = F.tailrec_grammar(rng)
+            G2 = F.rename_nts(G, rng)
+            tail.append({'family': 'F_tailrec', 'gtext': F.grammar_text(G2, term_defs=F.grammar_terms(G2)),
+                         'inputs': [w for w in F.sentences(G, 7, limit=6)] + [()]})
+        tcases = [c for c in C.pmap(observe_case, tail) if 'skip' not in c and not c['other']]
+        judge(tcases, ev, rep, tmp, 'tailrec')
+        drifting = digraph_conformance(ev, rep, tier, rng, tmp, [])
+        if drifting:
+            dspecs = [{'family': 'digraph-drift', 'gtext': g, 'inputs': [()]} for g in drifting[:60]]
+            dcases = [c for c in C.pmap(observe_case, dspecs) if 'skip' not in c and not c['other']]
+            judge(dcases, ev, rep, tmp, 'drift')
         selftest(ev, cases, tmp)
         if ev.cov['counts'].get('grammar_errors', 0) < 50 or ev.cov['counts'].get('accepted', 0) < 500:
             raise C.MachineryFailure('vacuity: %s' % ev.cov['counts'])
